@@ -3,6 +3,7 @@ package c20
 
 import (
 	"encoding/json"
+	"strings"
 	"testing"
 
 	"pgregory.net/rapid"
@@ -18,11 +19,14 @@ type Case struct {
 	Depth  int              `json:"depth"`
 	Tear   bool             `json:"tear_inner"`
 	Repeat int              `json:"repeat"`
+	// CommitTear: the crash points are taken among the log writes of commits, and that log write is torn one byte before its
+	// end: the image holds all records of the committing transaction (e.g. its APPLYDELETE records) except the COMMIT record
+	CommitTear bool `json:"commit_tear,omitempty"`
 }
 
 var profile = crasheng.Profile{AbortPct: 30, MaxTxns: 6, Checkpoint: 15, OpenTail: true, OpenMid: 15, PostCrash: 50}
 
-const rule = "Case = generated C01/C02-style history x 2-4 crash points k of its I/O trace (crash images with losers / un-flushed committed work) x every prefix j of the recovery run's own recorded I/O trace (page writes of evictions and of the final flush, log truncation, re-seeded log records), optionally the log write torn, nested to depth 2 on a sample; plus plain repetition of recovery 2-5 times. Oracle: the committed-set oracle of the first crash point k (state(D) or state(D+U)) and the post-recovery DML smoke test. Non-trivial = a second crash strictly inside the recovery trace of an image whose log was non-empty."
+const rule = "Case = generated C01/C02-style history x 2-4 crash points k of its I/O trace (crash images with losers / un-flushed committed work; in a third of the cases the points are log writes of commits torn just before their end, i.e. images that hold a committing transaction's records without its COMMIT record) x every prefix j of the recovery run's own recorded I/O trace (page writes of evictions and of the final flush, log truncation, re-seeded log records), optionally the log write torn, nested to depth 2 on a sample; plus plain repetition of recovery 2-5 times. Oracle: the committed-set oracle of the first crash point k (state(D) or state(D+U)) and the post-recovery DML smoke test. Non-trivial = a second crash strictly inside the recovery trace of an image whose log was non-empty."
 
 var assumptions = []string{
 	"prefix crash model at the DiskManager boundary, also for the recovery run (recorded through hook H1)",
@@ -42,15 +46,30 @@ func explore(c *Case, noTornPage bool) (*vf.Failure, *crasheng.Stats) {
 			return nil
 		}
 		all := run.CrashPoints(0)
+		var commitKs []int // prefixes that end with the log write of a commit (the next marker is a commit-return)
+		if c.CommitTear {
+			ev := run.Rec.Events
+			for i := run.Start; i < run.End && i < len(ev); i++ {
+				if ev[i].Kind == crashsim.EvLog && i+1 < len(ev) && ev[i+1].Kind == crashsim.EvMarker && strings.HasPrefix(ev[i+1].Label, "commit-return") && len(ev[i].Data) > 21 {
+					commitKs = append(commitKs, i+1)
+				}
+			}
+		}
 		for _, pm := range c.Points {
 			k := all[(pm*(len(all)-1))/1000]
-			if v := run.ExploreRecoveryCrashes(k, crashsim.Tear{}, c.Depth, c.Tear, st); v != nil {
+			tear := crashsim.Tear{}
+			if len(commitKs) > 0 {
+				k = commitKs[(pm*(len(commitKs)-1))/1000]
+				tear = crashsim.Tear{On: true, Bytes: len(run.Rec.Events[k-1].Data) - 1}
+				st.Classes["first-crash-tears-the-commit-record"] = true
+			}
+			if v := run.ExploreRecoveryCrashes(k, tear, c.Depth, c.Tear, st); v != nil {
 				v.F.Extra = map[string]any{"k": k, "extra": v.F.Extra}
 				out = v.F
 				return nil
 			}
 			if c.Repeat > 0 {
-				if v := run.RepeatRecovery(k, crashsim.Tear{}, c.Repeat, st); v != nil {
+				if v := run.RepeatRecovery(k, tear, c.Repeat, st); v != nil {
 					out = v.F
 					return nil
 				}
@@ -76,6 +95,7 @@ func gen(t *rapid.T) *Case {
 	c.Depth = rapid.SampledFrom([]int{1, 1, 2}).Draw(t, "depth")
 	c.Tear = rapid.Bool().Draw(t, "tear")
 	c.Repeat = rapid.SampledFrom([]int{0, 2, 3, 5}).Draw(t, "repeat")
+	c.CommitTear = rapid.IntRange(0, 2).Draw(t, "committear") == 0
 	return c
 }
 
